@@ -4,19 +4,27 @@
 #[verifier::accept_recursive_types(K)]
 #[verifier::accept_recursive_types(V)]
 pub struct IndexMap<K, V> { _k: std::marker::PhantomData<(K, V)> }
+#[verifier::external_body]
+#[verifier::accept_recursive_types(K)]
+#[verifier::accept_recursive_types(V)]
+pub struct Entry<'a, K, V> { _k: std::marker::PhantomData<&'a mut (K, V)> }
 
-pub trait KeyEq { spec fn key_eq(&self, o: &Self) -> bool; }
+pub open spec fn im_has<K, V>(s: Seq<(K, V)>, k: K) -> bool { exists|i: int| 0 <= i < s.len() && (#[trigger] s[i]).0 == k }
+pub open spec fn im_idx<K, V>(s: Seq<(K, V)>, k: K) -> int { choose|i: int| 0 <= i < s.len() && (#[trigger] s[i]).0 == k }
+pub open spec fn im_distinct<K, V>(s: Seq<(K, V)>) -> bool {
+    forall|i: int, j: int| 0 <= i < j < s.len() ==> (#[trigger] s[i]).0 != (#[trigger] s[j]).0
+}
+// insertion-ordered insert: overwrite in place when the key is present, append otherwise
+pub open spec fn im_insert<K, V>(s: Seq<(K, V)>, k: K, v: V) -> Seq<(K, V)> {
+    if im_has(s, k) { s.update(im_idx(s, k), (k, v)) } else { s.push((k, v)) }
+}
+pub uninterp spec fn default_of<V>() -> V;
+pub broadcast axiom fn axiom_default_vec<T>() ensures #[trigger] default_of::<Vec<T>>()@ == Seq::<T>::empty();
 
 impl<K, V> IndexMap<K, V> {
     pub uninterp spec fn entries(&self) -> Seq<(K, V)>;
-    pub open spec fn keys_seq(&self) -> Seq<K> { Seq::new(self.entries().len(), |i: int| self.entries()[i].0) }
-    pub open spec fn distinct(&self) -> bool {
-        forall|i: int, j: int| 0 <= i < j < self.entries().len() ==> self.entries()[i].0 != self.entries()[j].0
-    }
-    pub open spec fn pos(&self, k: K) -> int
-        recommends self.has(k)
-    { choose|i: int| 0 <= i < self.entries().len() && self.entries()[i].0 == k }
-    pub open spec fn has(&self, k: K) -> bool { exists|i: int| 0 <= i < self.entries().len() && self.entries()[i].0 == k }
+    pub open spec fn distinct(&self) -> bool { im_distinct(self.entries()) }
+    pub open spec fn has(&self, k: K) -> bool { im_has(self.entries(), k) }
 
     #[verifier::external_body]
     pub fn new() -> (r: Self) ensures r.entries().len() == 0, r.distinct() { unimplemented!() }
@@ -26,26 +34,54 @@ impl<K, V> IndexMap<K, V> {
     pub fn len(&self) -> (r: usize) ensures r == self.entries().len() { unimplemented!() }
     #[verifier::external_body]
     pub fn is_empty(&self) -> (r: bool) ensures r == (self.entries().len() == 0) { unimplemented!() }
-}
-
-// insertion-ordered insert: overwrite in place when the key is present, append otherwise
-pub open spec fn im_insert<K, V>(s: Seq<(K, V)>, k: K, v: V) -> Seq<(K, V)> {
-    if exists|i: int| 0 <= i < s.len() && s[i].0 == k {
-        let i = choose|i: int| 0 <= i < s.len() && s[i].0 == k;
-        s.update(i, (k, v))
-    } else {
-        s.push((k, v))
-    }
-}
-impl<K, V> IndexMap<K, V> {
     #[verifier::external_body]
     pub fn insert(&mut self, k: K, v: V) -> (r: Option<V>)
-        requires old(self).distinct(),
-        ensures final(self).entries() == im_insert(old(self).entries(), k, v), final(self).distinct(),
+        ensures final(self).entries() == im_insert(old(self).entries(), k, v),
             r is Some <==> old(self).has(k),
     { unimplemented!() }
     #[verifier::external_body]
     pub fn clear(&mut self)
-        ensures final(self).entries().len() == 0, final(self).distinct(),
+        ensures final(self).entries().len() == 0,
+    { unimplemented!() }
+    // entry(k).or_default(): the Entry carries a prophecy of the map's entries when the borrow ends
+    #[verifier::external_body]
+    pub fn entry(&mut self, k: K) -> (e: Entry<'_, K, V>)
+        ensures e.key() == k, e.before() == old(self).entries(), final(self).entries() == e.fin(),
     { unimplemented!() }
 }
+impl<'a, K, V> Entry<'a, K, V> {
+    pub uninterp spec fn key(&self) -> K;
+    pub uninterp spec fn before(&self) -> Seq<(K, V)>;
+    pub uninterp spec fn fin(&self) -> Seq<(K, V)>;
+}
+impl<'a, K, V: Default> Entry<'a, K, V> {
+    #[verifier::external_body]
+    pub fn or_default(self) -> (r: &'a mut V)
+        ensures
+            im_has(self.before(), self.key()) ==> *r == self.before()[im_idx(self.before(), self.key())].1,
+            !im_has(self.before(), self.key()) ==> *r == default_of::<V>(),
+            self.fin() == im_insert(self.before(), self.key(), *final(r)),
+    { unimplemented!() }
+}
+// iteration in insertion order; `for (k, v) in &map` binds k: &K, v: &V exactly as with the real crate
+impl<'a, K, V> IntoIterator for &'a IndexMap<K, V> {
+    type Item = &'a (K, V);
+    type IntoIter = std::slice::Iter<'a, (K, V)>;
+    #[verifier::external_body]
+    fn into_iter(self) -> (it: std::slice::Iter<'a, (K, V)>)
+        ensures it.obeys_prophetic_iter_laws(), it.decrease() is Some,
+            it.remaining().len() == self.entries().len(),
+            forall|j: int| 0 <= j < it.remaining().len() ==> *(#[trigger] it.remaining()[j]) == self.entries()[j],
+    { unimplemented!() }
+}
+impl<K, V> IntoIterator for IndexMap<K, V> {
+    type Item = (K, V);
+    type IntoIter = std::vec::IntoIter<(K, V)>;
+    #[verifier::external_body]
+    fn into_iter(self) -> (it: std::vec::IntoIter<(K, V)>)
+        ensures it.obeys_prophetic_iter_laws(), it.decrease() is Some,
+            it.remaining() == self.entries(),
+    { unimplemented!() }
+}
+// the data-structure invariant of IndexMap: keys are pairwise distinct
+pub broadcast axiom fn axiom_im_distinct<K, V>(m: IndexMap<K, V>) ensures #[trigger] m.distinct();
